@@ -174,9 +174,20 @@ func (rw *rewriter) rewriteRange(st *ast.RangeStmt) ast.Stmt {
 		return st
 	}
 	rw.changed = true
+	// for k := range m  ==>  for _, k := range simrt.OrderedKeys(m) { if _, ok := m[k]; !ok { continue }; ... }
+	// (Go does not produce an entry that was removed before the iteration reached it)
+	mapExpr := st.X
+	key := st.Key
 	st.Value = st.Key
 	st.Key = ast.NewIdent("_")
-	st.X = call(sel("OrderedKeys"), st.X)
+	st.X = call(sel("OrderedKeys"), mapExpr)
+	guard := &ast.IfStmt{
+		Init: &ast.AssignStmt{Lhs: []ast.Expr{ast.NewIdent("_"), ast.NewIdent("_ygok")}, Tok: token.DEFINE,
+			Rhs: []ast.Expr{&ast.IndexExpr{X: mapExpr, Index: key}}},
+		Cond: &ast.UnaryExpr{Op: token.NOT, X: ast.NewIdent("_ygok")},
+		Body: &ast.BlockStmt{List: []ast.Stmt{&ast.BranchStmt{Tok: token.CONTINUE}}},
+	}
+	st.Body.List = append([]ast.Stmt{guard}, st.Body.List...)
 	return st
 }
 
